@@ -951,6 +951,9 @@ def run(ctx, thorough_histories=None):
     flush_model(ctx, jobs)
     if jobs is not None:
         check_walk_model(ctx, [(n, d) for n, d in files if len(d) < 200000][:ctx.budget(80, 600)])
+        # load / save / delete of the model on damaged files, exception classes included (Props/C04_Mp4.lean)
+        import mp4file_tie
+        mp4file_tie.run(ctx)
 
 
 def search(ctx):
